@@ -191,7 +191,8 @@ Record obs := mkobs {
   o_pbr : Z; o_pc : Z; o_bytes : list Z; o_name : string; o_shape : Z; o_groups : list (list Z);
   o_back : bool;
   o_hasregs : bool;            (* alt's Disassemble() string has no register part *)
-  o_a : shown; o_x : shown; o_y : shown; o_flags : list bool
+  o_a : shown; o_x : shown; o_y : shown; o_flags : list bool;
+  o_pure : bool                (* every integer / bool field of the CPU struct had the same value after the call as before *)
 }.
 
 Definition zlist_eqb (a b : list Z) : bool :=
@@ -206,6 +207,7 @@ Definition line_obs_eqb (l : line) (o : obs) : bool :=
   Z.eqb (l_pbr l) (o_pbr o) && Z.eqb (l_pc l) (o_pc o) && zlist_eqb (l_bytes l) (o_bytes o) &&
   String.eqb (l_name l) (o_name o) && Z.eqb (shape_code (l_syn l)) (o_shape o) &&
   zll_eqb (text_groups l) (o_groups o) && Bool.eqb (l_back l) (o_back o) &&
+  o_pure o &&                  (* the model leaves every register unchanged (DisasmProps.disassemble_to_same) *)
   (negb (o_hasregs o) ||
    (shown_eqb (l_a l) (o_a o) && shown_eqb (l_x l) (o_x o) && shown_eqb (l_y l) (o_y o) &&
     blist_eqb (l_flags l) (o_flags o))).
